@@ -39,7 +39,9 @@ impl ProcessRegistry {
     }
 
     pub async fn remove(&self, pid: &ExternalPid) -> Option<ProcessHandle> {
-        self.by_pid.write().await.remove(pid)
+        let removed = self.by_pid.write().await.remove(pid);
+        self.by_name.write().await.retain(|_, p| p != pid);
+        removed
     }
 
     pub async fn get(&self, pid: &ExternalPid) -> Option<ProcessHandle> {
